@@ -419,6 +419,9 @@ def make_loop_handler(invariants=None):
                     continue
                 if cur is None:
                     head.env[nm] = Unbound(nm)
+                elif hasattr(cur, 'havoc') and getattr(cur, 'is_zarr', False):
+                    head.env[nm] = cur.havoc()                   # a rebound array with contents: arbitrary contents of the same class
+                    keep_shape.append((nm, cur.shape))           # (the shape is a candidate invariant, checked below)
                 elif getattr(cur, 'is_zarr', False):
                     head.env[nm] = ZArr(cur.shape, cur.kind)     # candidate invariant: the shape is preserved (checked below)
                     keep_shape.append((nm, cur.shape))
@@ -498,6 +501,8 @@ def make_loop_handler(invariants=None):
             cur = after.env.get(nm, None)
             if cur is None:
                 after.env[nm] = MaybeUnbound(nm)
+            elif hasattr(cur, 'havoc') and getattr(cur, 'is_zarr', False):
+                after.env[nm] = cur.havoc()
             elif getattr(cur, 'is_zarr', False):
                 after.env[nm] = ZArr(cur.shape, cur.kind)
             elif getattr(cur, 'is_zscal', False):
